@@ -38,8 +38,8 @@ import (
 	"net"
 	"os"
 	"path/filepath"
-	"sync"
 	"strconv"
+	"sync"
 	"time"
 
 	zmq "github.com/pebbe/zmq4"
@@ -349,6 +349,8 @@ func (e *vrdEnv) built(c vrdCfg) *RegProcessor {
 		if c.Auth {
 			zmq.AuthStop() // newRegProcessor leaves the authenticator running when the bind fails
 		}
+		// (the authenticator of the previous registrar lets go of its in-process endpoint a moment after AuthStop returned)
+		time.Sleep(time.Duration(5*(try+1)) * time.Millisecond)
 	}
 	if err != nil {
 		panic(fmt.Sprintf("registrar constructor (auth=%v): %v", c.Auth, err))
